@@ -309,7 +309,7 @@ pub fn gen_cases(seed: u64, n: usize, max_len: i32, max_depth: usize, start_id: 
                 let o = body[i]["o"].as_str().unwrap();
                 if ["br", "br_if", "br_table", "bron"].contains(&o) && modes_at(&body, i).contains(&"semantic_after") && plan.len() < 5 {
                     let p = plan.len() as u64;
-                    let api = ["iter", "mod", "iter_at", "mod_at", "comp", "comp_at"][rng.gen_range(0..6)];
+                    let api = ["iter", "mod", "iter_at", "mod_at", "comp", "comp_at", "comp_loc"][rng.gen_range(0..7)];
                     plan.push(json!({"p":p,"site":i,"mode":"semantic_after","api":api,"code":[{"o":"probe","p":p}],"acc":true}));
                 }
             }
@@ -377,7 +377,7 @@ pub fn gen_cases(seed: u64, n: usize, max_len: i32, max_depth: usize, start_id: 
             if let Some(r) = reg {
                 regions.push(r);
             }
-            let apis: &[&str] = if mode.starts_with("empty") { &["iter", "mod", "comp"] } else { &["iter", "mod", "iter_at", "mod_at", "comp", "comp_at"] };
+            let apis: &[&str] = if mode.starts_with("empty") { &["iter", "mod", "comp", "comp_loc"] } else { &["iter", "mod", "iter_at", "mod_at", "comp", "comp_at", "comp_loc"] };
             let api = apis[rng.gen_range(0..apis.len())];
             let code = if mode.starts_with("empty") {
                 json!([])
@@ -389,7 +389,7 @@ pub fn gen_cases(seed: u64, n: usize, max_len: i32, max_depth: usize, start_id: 
             plan.push(json!({"p":p,"site":i,"mode":mode,"api":api,"code":code,"acc":true}));
             // now and then withdraw it again (clear_instr_at); a later entry may inject there once more
             if ["before", "after", "alternate"].contains(&mode) && rng.gen_range(0..10) == 0 {
-                let capi = ["iter", "mod", "comp"][rng.gen_range(0..3)];
+                let capi = ["iter", "mod", "comp", "comp_loc"][rng.gen_range(0..4)];
                 let p2 = plan.len() as u64;
                 plan.push(json!({"p":p2,"site":i,"mode":"clear","what":mode,"api":capi,"code":[],"acc":true}));
             }
